@@ -76,30 +76,35 @@ def parse_epath(b, padded=True):
             ext = bool(seg & 0x10)
             if port == 0:
                 raise PathError("port 0 is reserved")
-            if port == 15:
-                raise PathError("extended port identifiers not expected")
+            # port identifier 15: the real (16-bit) identifier follows the optional link-address-size byte (CIP Vol 1, C-1.4.1)
+            xp = 2 if port == 15 else 0
             if ext:
-                if i + 2 > n:
+                if i + 2 + xp > n:
                     raise PathError("truncated extended-link port segment")
                 ln = b[i + 1]
-                if ln < 2:
-                    # a 0/1-byte link address does not need the extended form; the spec allows it, keep lenient
-                    pass
-                end = i + 2 + ln
+                if xp:
+                    port = b[i + 2] | (b[i + 3] << 8)
+                    if port == 0:
+                        raise PathError("extended port identifier 0")
+                end = i + 2 + xp + ln
                 if end > n:
                     raise PathError("port segment link address longer than the path")
-                link = b[i + 2:end]
-                if (2 + ln) % 2:
+                link = b[i + 2 + xp:end]
+                if (2 + xp + ln) % 2:
                     if end >= n or b[end] != 0:
                         raise PathError("odd-length port segment not followed by a 0x00 pad")
                     end += 1
                 out.append(("port", port, link))
                 i = end
             else:
-                if i + 2 > n:
+                if i + 2 + xp > n:
                     raise PathError("truncated port segment")
-                out.append(("port", port, b[i + 1:i + 2]))
-                i += 2
+                if xp:
+                    port = b[i + 1] | (b[i + 2] << 8)
+                    if port == 0:
+                        raise PathError("extended port identifier 0")
+                out.append(("port", port, b[i + 1 + xp:i + 2 + xp]))
+                i += 2 + xp
         else:
             raise PathError(f"unexpected segment byte {seg:#04x} at offset {i}")
     return out
@@ -141,16 +146,17 @@ def enc_symbol(name):
 
 
 def enc_port(port, link):
-    """port: number 1..14; link: int slot 0..255 or str (IPv4 / host text) or bytes"""
+    """port: number 1..65535 (15 and above use the extended port identifier); link: int slot 0..255 or str (IPv4 / host text) or bytes"""
     if isinstance(link, int):
         lb = bytes([link])
     elif isinstance(link, str):
         lb = link.encode("ascii")
     else:
         lb = bytes(link)
+    first, xp = (port, b"") if port < 15 else (15, bytes([port & 0xFF, port >> 8]))   # 15: extended port identifier follows
     if len(lb) == 1:
-        return bytes([port, lb[0]])
-    seg = bytes([port | 0x10, len(lb)]) + lb
+        return bytes([first]) + xp + lb
+    seg = bytes([first | 0x10, len(lb)]) + xp + lb
     return seg + (b"\x00" if len(seg) % 2 else b"")
 
 
@@ -161,9 +167,14 @@ def enc_route(hops):
 # ---------------------------------------------------------------------------------------------
 # connection path grammar
 # ---------------------------------------------------------------------------------------------
+def _dec(s):
+    """a number of the grammar: one or more ASCII digits (no sign, no underscore, no blanks, no other scripts' digits)"""
+    return s.isascii() and s.isdigit()
+
+
 def is_ipv4(s):
     parts = s.split(".")
-    return len(parts) == 4 and all(p.isdigit() and len(p) <= 3 and int(p) <= 255 and (p == "0" or not p.startswith("0")) for p in parts)
+    return len(parts) == 4 and all(_dec(p) and len(p) <= 3 and int(p) <= 255 and (p == "0" or not p.startswith("0")) for p in parts)
 
 
 def ref_parse_path(path, auto_slot):
@@ -174,7 +185,7 @@ def ref_parse_path(path, auto_slot):
     port = None
     if ":" in host:
         host, p = host.split(":", 1)
-        if not (p.isdigit() or (p.startswith("-") and p[1:].isdigit())):
+        if not _dec(p):
             raise PathError("non-numeric TCP port")
         port = int(p)
         if not 0 < port < 65535:
@@ -188,10 +199,10 @@ def ref_parse_path(path, auto_slot):
     hops = []
     for i in range(0, len(segs), 2):
         pid, link = segs[i], segs[i + 1]
-        if pid.isdigit():
+        if _dec(pid):
             pn = int(pid)
-            if not 1 <= pn <= 14:
-                raise PathError("port number out of the documented range")
+            if not 1 <= pn <= 65535:
+                raise PathError("port number out of range")
         elif pid in PORT_NAMES:
             pn = PORT_NAMES[pid]
         else:
@@ -201,7 +212,7 @@ def ref_parse_path(path, auto_slot):
 
 
 def _link(s):
-    if s.isdigit():
+    if _dec(s):
         v = int(s)
         if v > 255:
             raise PathError("slot/link number out of range")
